@@ -23,7 +23,9 @@ Obs == /\ AsSeq(Ev.delivered) = SubSeq(delivered', Len(delivered) + 1, Len(deliv
 
 \* index -> triple, grid order
 Triple(i, ylo) == <<ylo + (i \div 10000), (i \div 100) % 100, i % 100>>
-RunOk(r, ylo) == \A i \in r[1]..r[2] : SupportsOpt(Triple(i, ylo)) = r[3]
+\* the library's own ordering, both ways round: "newer than the cutoff" is the mirror image
+Decision(fn, t) == IF fn = "compare>cutoff" THEN Lt(Cutoff, t) ELSE SupportsOpt(t)
+RunOk(r, ylo) == \A i \in r[1]..r[2] : Decision(Tr.fn, Triple(i, ylo)) = r[3]
 
 TInit == tid \in 1..NT /\ l = 1 /\ GInit
 TNext ==
